@@ -6,7 +6,17 @@ blocks still live after the survivors were freed; follow-up calls on the
 survivors), the ledger model of the constructors/unwinders (lean/Kdf/Model/Oom.lean)
 tied by comparing its allocation/free/lock trace with the intercepted real
 trace for every n, add_pfn_region against its model, and the translation-map
-atomicity stream of C10 under allocation failure."""
+atomicity stream of C10 under allocation failure.
+
+Round 2: LKCD, SADUMP and s390 dumps are generated (tools/dumpgen.py write_lkcd /
+write_sadump / write_s390); objects have clones (per-context buffers); the faulted
+call may be an open on an object whose earlier open failed, a change of
+arch.page_size / cache.size on an open dump, the first query of a lazily built
+attribute (memory.pagemap, file.pagemap, max_pfn) or per_ctx_alloc itself; the
+follow-up puts the attribute back, sweeps every page through every clone and
+frees everything.  Modelled and tied by traces: per_ctx_alloc (`slot`), the
+arch.page_size hook chain of LKCD (`pgsz`), mem_pagemap_revalidate's lock
+discipline (`pmap`)."""
 import concurrent.futures, os, re
 import kdf, dumpgen
 from props import c10
@@ -190,6 +200,15 @@ def scenarios(R, dumps, first):
     add("filepagemap-sadump", "getattr {n} {t} %s -1 %s 0 file.pagemap %s" % (sa[0], pl(sa[1]), pl(sa[1])), "sadump")
     add("filepagemap-elf", "getattr {n} {t} %s -1 %s 0 file.pagemap %s" % (e[0], pl(e[1]), pl(e[1])), "elf")
     add("free-lkcd", "free {n} {t} %s 0" % lk[0], "lkcd")
+    if first and R.tier != "quick":
+        # a memory bitmap with more than 2 * RGN_ALLOC_INC runs: the region array is grown three times
+        pages = sorted(rng.sample(range(1, 40), 4))
+        ram = sorted(set(range(0, 4200, 2)) | set(pages))
+        p = R.path("c18-big.dd")
+        dumpgen.write_diskdump(p, pages, max_mapnr=4200, ram=ram, methods={q: "raw" for q in pages})
+        S.append(Scn("mempagemap-dd-big", "getattr {n} {t} %s -1 %s 1 memory.pagemap %s" % (p, pl(pages), pl(ram)),
+                     dump=dict(writer="write_diskdump", pages=pages, max_mapnr=4200, ram_list=ram, methods={q: "raw" for q in pages},
+                               vmcoreinfo=False), model="pmap"))
     if first:
         for c in ([1, 2, 3] if R.tier == "quick" else [1, 2, 3, 4, 6]):
             add("slot-c%d" % c, "slot {n} {t} %d %d %d" % (c, rng.choice([24, 4096, 65536]), rng.randint(0, 2)), model="slot %d" % c)
@@ -457,14 +476,20 @@ def run(R):
                trusted_base=["Lean 4 kernel", "axioms: " + ", ".join(sorted({a for v in proof["axioms"].values() for a in v}) or ["none"]),
                              "malloc/calloc/realloc/strdup succeed or fail as scheduled (link-time --wrap); an allocation made through another "
                              "entry point (mmap, posix_memalign, a compression library's own allocator) is not failed",
+                             "a realloc that asks for a SMALLER block is failed like any other, but the call may ignore that refusal "
+                             "(reported as shrink=k; crash/leak/lock/follow-up rules still apply)",
                              "lock ledger = interposed pthread_rwlock_*/pthread_mutex_* of the calling thread; glibc's EDEADLK answer for a writer "
                              "re-locking its own rwlock is reproduced, a reader upgrading to writer is reported as a deadlock",
                              "harness/s_oom.c, s_oomrgn.c, s_map.c, tools/dumpgen.py, gcc + ASan/UBSan"],
                broken_theorems=proof["broken"], theorems=THEOREMS,
                evaluations=len(cases) + len(rl) + len(lines), distinct_nontrivial=injected,
                rule="for each scenario (create; clone x flags x per-context slots on fresh and opened objects; open ELF/ELF-nommap/diskdump/"
-                    "flattened [+ LKCD/SADUMP test dumps of the tree when present]; read MACHPHYS/KPHYS/KVADDR incl. unaligned ELF through the "
-                    "read cache and compressed diskdump pages; translation set-up; five attribute operations; addrxlat sys_os_init; free) the "
+                    "flattened/generated LKCD (v2..v10, raw+RLE, frame gaps)/SADUMP (single, media)/s390 [+ LKCD/SADUMP test dumps of the tree "
+                    "when present], also on an object that has clones and on one whose earlier open of a non-dump failed; read MACHPHYS/KPHYS/"
+                    "KVADDR incl. unaligned ELF through the read cache, compressed diskdump pages, LKCD/SADUMP/s390 pages through a clone; "
+                    "arch.page_size and cache.size changed on an open dump with clones and put back; first query of memory.pagemap / "
+                    "file.pagemap / max_pfn (bits compared with the generator's frame sets); per_ctx_alloc on 1..3 contexts; "
+                    "translation set-up; five attribute operations; addrxlat sys_os_init; free) the "
                     "clean run is counted (N allocations) and every n in 1..N+1 is failed in a forked child: status/NULL, crash or sanitizer "
                     "report, lock ledger at return, leak after freeing the survivors, follow-up calls on the survivors (attributes, full page "
                     "sweep against generator content, re-open after a failed open); non-trivial = cases in which an allocation really failed",
@@ -474,8 +499,13 @@ def run(R):
                c16_notes=c16_notes[:12], optional_scenarios=[sc.name for sc in S if sc.optional],
                samples=sample)
     return "proof", cov, ["exactly one allocation fails per call (the property's fault model)",
-                          "the modelled constructors are kdump_new, kdump_clone, alloc_ctx, attr_dict_new, xlat_new/xlat_clone, add_pfn_region; "
-                          "all other allocation sites are enumerated and observed, not proved",
+                          "the modelled constructors are kdump_new, kdump_clone, alloc_ctx, attr_dict_new, xlat_new/xlat_clone, add_pfn_region, "
+                          "per_ctx_alloc/per_ctx_free, lkcd_realloc_compressed + def_realloc_caches (arch.page_size on an open LKCD dump), "
+                          "mem_pagemap_revalidate (locks and region-array growth); all other allocation sites are enumerated and observed, not proved",
+                          "implementation-only (no model): open/read of LKCD, SADUMP, s390; re-open after a failed open; cache.size changes; "
+                          "file.pagemap and max_pfn queries; the LKCD page index (search_page_desc)",
+                          "the re-open scenario starts from an object whose earlier open FAILED (a file that is not a dump); re-opening over a "
+                          "successfully opened dump is C15's recorded finding reopen-open-context (the previous format is not released)",
                           "single-threaded: lock findings are self-deadlocks / holds at return, not races (C05)"]
 
 
@@ -509,12 +539,24 @@ def replay(R, path):
             dumpgen.write_elf(p, d["segs"], machine=d.get("machine", "x86_64"), elfclass=d.get("elfclass", 64), be=d.get("be", False))
         elif d["writer"] == "write_elf_unaligned":
             dumpgen.write_elf_unaligned(p, d["pfn"], d["npages"], shift=d["shift"])
+        elif d["writer"] == "write_lkcd":
+            dumpgen.write_lkcd(p, [dict(pfn=q, data=dumpgen.page_bytes(q, 4096), kind=d["kinds"][str(q)]) for q in d["order"]],
+                               version=d["version"], compression=d["compression"])
+        elif d["writer"] == "write_sadump":
+            dumpgen.write_sadump([p], {q: dumpgen.page_bytes(q, 4096) for q in d["pages"]}, ram=d["ram"], max_mapnr=d["max_mapnr"],
+                                 kind=d["kind"], nr_cpus=d["nr_cpus"])
+        elif d["writer"] == "write_s390":
+            dumpgen.write_s390(p, {q: dumpgen.page_bytes(q, 4096) for q in range(d["npages"])}, d["npages"])
         else:
             meth = {int(k): v for k, v in d["methods"].items()}
-            dumpgen.write_diskdump(p, d["pages"], max_mapnr=d["max_mapnr"], ram=range(d["ram"]), methods=meth,
+            dumpgen.write_diskdump(p, d["pages"], max_mapnr=d["max_mapnr"], ram=d["ram_list"] if "ram_list" in d else range(d["ram"]), methods=meth,
                                    vmcoreinfo=b"OSRELEASE=5.4.0-verif\nPAGESIZE=4096\n" if d.get("vmcoreinfo") else None,
                                    flattened=d.get("flattened"))
-        line = re.sub(r"/var/tmp/kdfverif\.\S+", p, line)
+        if " !" in line:            # the file that is not a dump (any will do)
+            j = R.path("replay.junk")
+            open(j, "wb").write(bytes(range(1, 256)) + b"\0" * 70000)
+            line = re.sub(r" !\S+", " !" + j, line)
+        line = re.sub(r"(?<!!)/var/tmp/kdfverif\.\S+", p, line)
     elif d and "file" in d:
         line = re.sub(r"\S*/tests/out/\S+", os.path.join(kdf.REPO, d["file"]), line)
     rc, out, err = R.run_harness(exe, stdin_text=line + "\n")
@@ -524,7 +566,7 @@ def replay(R, path):
     print("recorded:", rp.get("observation"))
     f = fields(o[0]) if o else None
     bad = not f or f["end"] != "done" or f["locks"] != "0" or f["leak"] != "0" or f["follow"] != "ok" or \
-        (int(f["inj"]) > 0 and f["ret"].split("C16")[0].strip() in ("ok", "obj"))
+        (int(f["inj"]) > int(f.get("shrink", 0)) and f["ret"].split("C16")[0].strip() in ("ok", "obj"))
     if bad:
         print("VIOLATION property=C18 replay=%s" % path)
     return 1 if bad else 0
